@@ -19,6 +19,7 @@ func init() {
 			`R04.3 one read, two consumers: the diff and the signature of a file read from two Reader()s of the same multiread whose upstream is pool.GetReader(fileIndex), and the signature is computed for that same index; ` +
 			`R04.4 symlink destinations read from disk are compared with / created from the signed Dest modulo filepath.FromSlash only (tlc records Readlink verbatim). ` +
 			`R04.6 also: the strong hash written does not come out of a variable that survives from one block to the next (captured variable, field, package variable, map). ` +
+			`R13.10 (shared) ReadMessage fails on a decoded length beyond a constant only if WriteMessage fails beyond a constant that is not larger (the container is one message). ` +
 			`NOT decided: block boundaries under re-chunking, hash values, that validating a pristine copy reports nothing.`,
 		Run: runC04,
 	})
@@ -121,6 +122,7 @@ func runC04(c *core.Ctx) {
 	c.Rule("R04.4", "symlink destinations compared/created modulo FromSlash only")
 	ruleShortSizeIsShort(c, "R04.5")
 	ruleSignedHashesAreComputed(c, "R04.6")
+	ruleReaderAcceptsWhatWriterWrites(c, "R13.10")
 	ruleCopyWritesWhatItRead(c, "R01.6")
 
 	// ---- R04.1
